@@ -234,6 +234,32 @@ def cli_check(samples):
                 except Exception as ex:
                     if not isinstance(ex, SyntaxError):
                         fails.append({"cls": f"cli:raises:{type(ex).__name__}", "what": f"{pat!r}: {ex}", "src": src})
+        # the same module with a byte order mark in front (which is no part of the code): same locations, no exception
+        for i, (src, pats) in enumerate(samples[:6]):
+            try:
+                ast.parse(src)
+            except SyntaxError:
+                continue
+            path = os.path.join(d, f"bom{i}.py")
+            with open(path, "w", encoding="utf-8-sig") as f:
+                f.write(src)
+            for pat in pats[:2]:
+                try:
+                    want = [(m.lineno, m.col_offset) for m in pm.finditer(pat, src)]
+                except Exception:  # noqa: BLE001
+                    continue
+                evals += 1
+                try:
+                    buf = io.StringIO()
+                    with contextlib.redirect_stdout(buf):
+                        pm.main(["find", pat, path])
+                    got = [tuple(map(int, l[len(path) + 1:].split(":")[:2])) for l in buf.getvalue().splitlines() if l.startswith(path)]
+                    if got != want:
+                        fails.append({"cls": "cli:locations:byte-order-mark", "what": f"pyrefind {pat!r} on the file with a byte order mark: printed {got}, finditer on the code gives {want}", "src": src})
+                except SystemExit:
+                    pass
+                except Exception as ex:  # noqa: BLE001
+                    fails.append({"cls": f"cli:raises:{type(ex).__name__}:byte-order-mark", "what": f"{pat!r} on a file with a byte order mark: {ex}", "src": src})
     return evals, fails
 
 
